@@ -148,4 +148,4 @@ def run(report, findings):
                 "non-unique / float / string indexes, column order, added / removed unused columns, NaN rows under a non-unique index); "
                 "non-trivial = both designs built and response/common/group matrices, labels, levels, slices, groups compared",
         "samples": [[f, "row permutation"] for f in FORMULAS[:3]] + [[FORMULAS[13], "non-unique index"]]})
-    report.assumptions = ["matrices compared with relative/absolute tolerance 1e-9 (summation order of float reductions)"]
+    report.assumptions = list(dict.fromkeys(list(report.assumptions) + ["matrices compared with relative/absolute tolerance 1e-9 (summation order of float reductions)"]))
